@@ -583,4 +583,146 @@ theorem noClosingQuote_escape (item : List Char) : noClosingQuote (escape item) 
       | nil => simp [noClosingQuote, h.1]
       | cons b t => rw [hr] at ih; simp [noClosingQuote, h.1, h.2, ih]
 
+/-! ### expandtabs and the malformed patterns -/
+
+/-- column reached after writing `s` from column `col` (as `str.expandtabs` counts) -/
+def colAfter : Nat → List Char → Nat
+  | col, [] => col
+  | col, c :: r =>
+    if c = '\t' then colAfter (col + (8 - col % 8)) r
+    else if c = '\n' ∨ c = '\r' then colAfter 0 r
+    else colAfter (col + 1) r
+
+theorem expandTabs_append (col : Nat) (a b : List Char) :
+    expandTabs col (a ++ b) = expandTabs col a ++ expandTabs (colAfter col a) b := by
+  induction a generalizing col with
+  | nil => simp [expandTabs, colAfter]
+  | cons c r ih =>
+    simp only [List.cons_append, expandTabs, colAfter]
+    split
+    · simp [ih]
+    · split <;> simp [ih]
+
+theorem expandTabs_ws (col : Nat) (ws : List Char) (h : ∀ c ∈ ws, isWs c = true) :
+    ∀ c ∈ expandTabs col ws, isWs c = true := by
+  induction ws generalizing col with
+  | nil => simp [expandTabs]
+  | cons a r ih =>
+    have ihr := fun col => ih col (fun c hc => h c (by simp [hc]))
+    have ha := h a (by simp)
+    simp only [expandTabs]
+    split
+    · intro c hc
+      simp only [List.mem_append, List.mem_replicate] at hc
+      rcases hc with hc | hc
+      · rw [hc.2]; decide
+      · exact ihr _ c hc
+    · split
+      · intro c hc; simp only [List.mem_cons] at hc
+        rcases hc with hc | hc
+        · rw [hc]; exact ha
+        · exact ihr _ c hc
+      · intro c hc; simp only [List.mem_cons] at hc
+        rcases hc with hc | hc
+        · rw [hc]; exact ha
+        · exact ihr _ c hc
+
+theorem expandTabs_eq_nil (col : Nat) (s : List Char) (h : expandTabs col s = []) : s = [] := by
+  cases s with
+  | nil => rfl
+  | cons c r =>
+    simp only [expandTabs] at h
+    split at h
+    · have : 0 < 8 - col % 8 := by omega
+      obtain ⟨k, hk⟩ : ∃ k, 8 - col % 8 = k + 1 := ⟨8 - col % 8 - 1, by omega⟩
+      rw [hk] at h; simp [List.replicate_succ] at h
+    · split at h <;> simp at h
+
+theorem expandTabs_cons_nontab (col : Nat) (c : Char) (r : List Char) (h : c ≠ '\t') :
+    ∃ col', expandTabs col (c :: r) = c :: expandTabs col' r := by
+  simp only [expandTabs, h, if_false]
+  split
+  · exact ⟨0, rfl⟩
+  · exact ⟨col + 1, rfl⟩
+
+theorem noClosingQuote_spaces (n : Nat) (s : List Char) :
+    noClosingQuote (List.replicate n ' ' ++ s) = noClosingQuote s := by
+  induction n with
+  | zero => simp
+  | succ n ih =>
+    rw [List.replicate_succ, List.cons_append]
+    cases hs : List.replicate n ' ' ++ s with
+    | nil =>
+      rw [hs] at ih
+      simp [noClosingQuote] at ih ⊢
+      exact ih
+    | cons b t =>
+      rw [hs] at ih
+      simp only [noClosingQuote]
+      rw [if_neg (by decide), if_neg (by decide)]
+      exact ih
+
+theorem noClosingQuote_cons_plain (c : Char) (s : List Char) (h1 : c ≠ '"') (h2 : c ≠ '\\') :
+    noClosingQuote (c :: s) = noClosingQuote s := by
+  cases s with
+  | nil => simp [noClosingQuote, h1]
+  | cons b t => simp [noClosingQuote, h1, h2]
+
+theorem noClosingQuote_expandTabs_aux (n : Nat) : ∀ (col : Nat) (s : List Char), s.length ≤ n →
+    noClosingQuote s = true → noClosingQuote (expandTabs col s) = true := by
+  induction n with
+  | zero =>
+    intro col s hn _
+    have : s = [] := List.eq_nil_of_length_eq_zero (by omega)
+    subst this; simp [expandTabs, noClosingQuote]
+  | succ n ih =>
+    intro col s hn h
+    match s, hn, h with
+    | [], _, _ => simp [expandTabs, noClosingQuote]
+    | [c], _, h =>
+      simp only [noClosingQuote, bne_iff_ne, ne_eq] at h
+      by_cases ht : c = '\t'
+      · subst ht
+        simp only [expandTabs, if_true, List.append_nil]
+        have := noClosingQuote_spaces (8 - col % 8) []
+        simpa [noClosingQuote] using this
+      · obtain ⟨col', hc⟩ := expandTabs_cons_nontab col c [] ht
+        rw [hc]; simp [expandTabs, noClosingQuote, h]
+    | c :: e :: r, hn, h =>
+      simp only [noClosingQuote] at h
+      split at h
+      · simp at h
+      · rename_i hq
+        split at h
+        · rename_i hb
+          subst hb
+          -- backslash pair
+          obtain ⟨col1, h1⟩ := expandTabs_cons_nontab col '\\' (e :: r) (by decide)
+          rw [h1]
+          by_cases ht : e = '\t'
+          · subst ht
+            simp only [expandTabs, if_true]
+            obtain ⟨k, hk⟩ : ∃ k, 8 - col1 % 8 = k + 1 := ⟨8 - col1 % 8 - 1, by omega⟩
+            rw [hk, List.replicate_succ, List.cons_append]
+            simp only [noClosingQuote]
+            rw [if_neg (by decide), if_pos trivial, noClosingQuote_spaces]
+            exact ih _ r (by simp at hn; omega) h
+          · obtain ⟨col2, h2⟩ := expandTabs_cons_nontab col1 e r ht
+            rw [h2]
+            simp only [noClosingQuote]
+            rw [if_neg (by decide), if_pos trivial]
+            exact ih _ r (by simp at hn; omega) h
+        · rename_i hb
+          have ihr := fun col' => ih col' (e :: r) (by simp at hn ⊢; omega) h
+          by_cases ht : c = '\t'
+          · subst ht
+            simp only [expandTabs, if_true]
+            rw [noClosingQuote_spaces]; exact ihr _
+          · obtain ⟨col1, h1⟩ := expandTabs_cons_nontab col c (e :: r) ht
+            rw [h1, noClosingQuote_cons_plain c _ hq hb]; exact ihr _
+
+theorem noClosingQuote_expandTabs (col : Nat) (s : List Char) (h : noClosingQuote s = true) :
+    noClosingQuote (expandTabs col s) = true :=
+  noClosingQuote_expandTabs_aux s.length col s (Nat.le_refl _) h
+
 end Oslo.Split
